@@ -54,7 +54,7 @@ COMPONENTS = {
     "real": ["ad_afqmc.sampling.sampler (all six phaseless entry points)", "ad_afqmc.driver.afqmc", "ad_afqmc.propagation", "ad_afqmc.wavefunctions rhf/uhf/noci incl. optimize", "ad_afqmc.sr", "ad_afqmc.config.not_a_comm", "jax / XLA CPU"],
     "stub": ["mpi4py.MPI -> SimComm/SimWorld", "wall clock -> simulated clock with jumps", "stdout -> buffer"],
 }
-REQUIRED_PROBES = {"quick": ["cross_runs", "batch_runs", "driver_runs", "estimator_identity_checked", "schedules_differed", "not_a_comm_runs"],
+REQUIRED_PROBES = {"quick": ["cross_runs", "batch_runs", "driver_runs", "estimator_identity_checked", "independent_estimator_checked", "schedules_differed", "not_a_comm_runs"],
                    "thorough": ["cross_runs", "batch_runs", "driver_runs", "estimator_identity_checked", "schedules_differed", "fresh_interpreter_runs", "not_a_comm_runs"]}
 
 AD_ENTRIES = ["ad", "ad_nosr", "ad_norot", "ad_nosr_norot"]
@@ -201,6 +201,40 @@ def capped_estimator(s, pd, ham_data=None, wave_data=None):
     e = np.where(np.abs(e - est) > cap, est, e)
     w = np.asarray(pd["weights"])
     return float(np.sum(e * w) / np.sum(w)), e
+
+
+def fock_estimator(cfg, s, pd, wave_data):
+    """Weight-averaged capped real local energy of the population in pd, with the local energies
+    <psi_T|H|phi>/<psi_T|phi> evaluated in Fock space from the Hamiltonian as supplied."""
+    from ..models import fock
+
+    kind = type(s.trial).__name__
+    if kind not in ("rhf", "uhf", "noci"):
+        return None
+    norb, nelec = cfg["norb"], tuple(cfg["nelec"])
+    sec = fock.Sector(norb, nelec)
+    raw = s.ham_data_raw
+    H = sec.hamiltonian(float(np.asarray(raw["h0"])), np.asarray(raw["h1"]), np.asarray(raw["chol"]))
+    psi = fock.trial_state(sec, kind, wave_data)
+    if isinstance(pd["walkers"], list):
+        ups, dns = np.asarray(pd["walkers"][0]), np.asarray(pd["walkers"][1])
+    else:
+        w = np.asarray(pd["walkers"])
+        ups, dns = w[:, :, : nelec[0]], w[:, :, : nelec[1]]
+    wts = np.asarray(pd["weights"])
+    est = float(np.asarray(pd["e_estimate"]))
+    cap = np.sqrt(2.0 / s.prop.dt)
+    e = np.zeros(len(wts))
+    for i in range(len(wts)):
+        if wts[i] > 0:
+            phi = sec.det_state(ups[i], dns[i])
+            el = float(np.real(np.vdot(psi, H @ phi) / np.vdot(psi, phi)))
+            if abs(abs(el - est) - cap) < 1e-6 * cap:
+                return None  # at the capping threshold: not decidable
+            e[i] = est if abs(el - est) > cap else el
+    if float(np.sum(wts)) <= 0:
+        return None
+    return float(np.sum(e * wts) / np.sum(wts))
 
 
 def _start_state(cfg, s, smp):
@@ -358,6 +392,13 @@ def _execute_cross(cfg, ctx):
                 want2, _ = capped_estimator(s, pd_a, hd, wd)
                 if not _eq(e_a, want2, 1e-9):
                     _bad(ctx, "sampler.energy_is_not_weighted_capped_mean", site_a, cfg, energy=_num(e_a), definition=want2)
+                # the same definition with local energies computed independently of the library
+                # (Fock-space mixed estimator of the Hamiltonian as supplied)
+                want3 = fock_estimator(cfg, s, pd_a, wd)
+                if want3 is not None:
+                    if not _eq(e_a, want3, 1e-8):
+                        _bad(ctx, "sampler.energy_is_not_weighted_capped_mean_of_true_local_energies", site_a, cfg, energy=_num(e_a), independent=want3, library_definition=want2)
+                    ctx.probe("independent_estimator_checked", 1)
             ctx.probe("estimator_identity_checked", 1)
     if der is not None and mode == "forward":
         ctx.count("forward_derivative_finite", int(np.isfinite(float(np.asarray(der)))))
